@@ -154,13 +154,30 @@ func checkC24(c *Ctx, r *Report) {
 	}
 	r3 := r.Rule("R3", "E-GUARD", "passiveFilter.Failed marks the host unhealthy only where len(retained failures) >= Fails; the retained list is the stored list pruned from the front by FailTimeout plus the new failure, and is stored back", 1)
 	if fl := r.MustFunc(r3, "(*"+tPF+").Failed"); fl != nil {
-		okMark := false
+		// every mark written anywhere in the package is written by Failed, for the
+		// failed host, on the threshold side (all of them, not just one)
+		okMark, nMark := true, 0
+		for _, g := range c.FuncsIn(pkgHC) {
+			if c.isFixture(g) || g == fl {
+				continue
+			}
+			instrsOf(g, func(in ssa.Instruction) {
+				if mu, isMU := in.(*ssa.MapUpdate); isMU && isPureLoadOf(mu.Map, tPF+"."+fUnhealthy) {
+					okMark = false
+				}
+			})
+		}
 		instrsOf(fl, func(in ssa.Instruction) {
 			mu, isMU := in.(*ssa.MapUpdate)
-			if !isMU || !isPureLoadOf(mu.Map, tPF+"."+fUnhealthy) || mu.Key != fl.Params[1] {
+			if !isMU || !isPureLoadOf(mu.Map, tPF+"."+fUnhealthy) {
 				return
 			}
-			okMark = guardedBy(mu, func(cond ssa.Value, val bool) int {
+			nMark++
+			if mu.Key != fl.Params[1] {
+				okMark = false
+				return
+			}
+			okMark = okMark && guardedBy(mu, func(cond ssa.Value, val bool) int {
 				b, isB := cond.(*ssa.BinOp)
 				if !isB || !mentionsField(b.Y, pkgHC+".PassiveFilterConfig.Fails") {
 					return 0
@@ -210,7 +227,7 @@ func checkC24(c *Ctx, r *Report) {
 			}
 			visit(fl, 0)
 		}
-		r.Check(okMark && stored && pruned, r3, fl, "mark at the Fails threshold", nil, "len(retained) >= Fails, list pruned and stored", "a host is marked unhealthy without the retained-failure count having reached Fails, or the failure list is not pruned/stored")
+		r.Check(okMark && nMark >= 1 && stored && pruned, r3, fl, "mark at the Fails threshold", nil, "len(retained) >= Fails, list pruned and stored", "a host is marked unhealthy without the retained-failure count having reached Fails, or the failure list is not pruned/stored")
 	}
 	r5 := r.Rule("R5", "E-OWN", "the per-host failure history (passiveFilter.failures) is written — updated or deleted from — only by Failed, where every write stores the pruned list; no other function drops failures that may still lie inside the window", 1)
 	nw := 0
